@@ -66,11 +66,11 @@ theorem first_sync (c : LCfg) (hE : c.maxErrors ≤ 6) (hP : c.fc.maxPrefixErr <
       ∧ (lrunState c s ((body ++ tail).take (syncTick acq + 1))).train = 3
       ∧ lrunBursts c s ((body ++ tail).take (syncTick acq + 1)) = [] := by
   have hacq := H.acq_le
-  obtain ⟨f1, _, f3, f4, f5⟩ := first_sync_state H hok c hE hP s hs
+  obtain ⟨f1, _, f3, f4, f5⟩ := first_sync_state H.weaken hok c hE hP s hs (H.btNoHit c s)
   refine ⟨by unfold syncTick; omega, by unfold syncTick; omega, by unfold syncTick; omega,
     by unfold syncTick; omega, ?_, f1, f3, f4, f5⟩
   intro t ht
-  obtain ⟨q1, _, _, q4⟩ := phase_quiet H hok c hE s hs (syncTick acq) (by unfold syncTick; omega)
+  obtain ⟨q1, _, _, q4⟩ := phase_quiet H.weaken hok c hE s hs (H.btNoHit c s) (syncTick acq) (by unfold syncTick; omega)
     (by unfold syncTick; intro t h1 h2; omega) t ht
   exact ⟨q1, q4⟩
 
@@ -123,7 +123,7 @@ theorem framer_sees (c : LCfg) (hE : c.maxErrors ≤ 6) (hP : c.fc.maxPrefixErr 
       ∧ (lrunState c s ((body ++ tail).take (body.length + 31))).train = 0
       ∧ lrunBursts c s ((body ++ tail).take (body.length + 31)) = [] := by
   obtain ⟨e1, e2, e3, e4, e5⟩ :=
-    synced_end H hok hdash c hE (prefixFacts_of c.fc payload hok hP hP4) s hs
+    synced_end H.weaken hok hdash c hE (prefixFacts_of c.fc payload hok hP hP4) s hs (H.btNoHit c s)
   exact ⟨e4, e2, e1, e3, e5⟩
 
 /-- **C01, one burst.**  Under the front-end assumptions for one burst, from any quiescent state,
@@ -136,7 +136,8 @@ theorem burst_delivered (c : LCfg) (hE : c.maxErrors ≤ 6) (hP : c.fc.maxPrefix
     (lead body tail : List Tick) (acq rel : Nat) (H : BurstObserved payload lead body tail acq rel) :
     ∃ g, lrunBursts c s (lead ++ body ++ tail) = [payload ++ g] ∧ g.length ≤ (rel + 7) / 8
       ∧ Quiescent (lrunState c s (lead ++ body ++ tail)) :=
-  burst_whole H hok hdash c hE (prefixFacts_of c.fc payload hok hP hP4) s hs
+  burst_whole H.weaken hok hdash c hE (prefixFacts_of c.fc payload hok hP hP4) s hs.ready
+    (by have := hs.warm; omega) (H.noFalseHits c s)
 
 /-- the same with the bound in the form `rel / 8 + 2` -/
 theorem burst_delivered' (c : LCfg) (hE : c.maxErrors ≤ 6) (hP : c.fc.maxPrefixErr ≤ 7)
